@@ -505,6 +505,9 @@ class Project:
                 args = [self.const_value(scope, a, depth + 1) for a in expr.args]
                 kw = {k.arg: self.const_value(scope, k.value, depth + 1) for k in expr.keywords}
                 return {'dict': dict, 'set': set, 'list': list, 'tuple': tuple, 'frozenset': frozenset}[fn.id](*args, **kw)
+            if isinstance(fn, ast.Name) and fn.id in ('chr', 'ord', 'len', 'str') and len(expr.args) == 1 and not expr.keywords \
+                    and self.resolve_name(scope, fn.id).kind == 'builtin':
+                return {'chr': chr, 'ord': ord, 'len': len, 'str': str}[fn.id](self.const_value(scope, expr.args[0], depth + 1))
             raise ValueError('call')
         raise ValueError('not const: %s' % type(expr).__name__)
 
